@@ -1565,6 +1565,17 @@ class Env:
                         self.err(node, 'np.zeros needs a literal 2-tuple shape')
                     r, c = [self.const_int(e) for e in sh.elts]
                     return SymMat(r, c, [[ZERO] * c for _ in range(r)])
+                if f.attr == 'diag' and len(node.args) == 1 and not node.keywords:
+                    # np.diag(M[:, k]): the diagonal matrix of a column
+                    a0 = node.args[0]
+                    if isinstance(a0, ast.Subscript) and isinstance(a0.slice, ast.Tuple) and len(a0.slice.elts) == 2 \
+                            and isinstance(a0.slice.elts[0], ast.Slice) and a0.slice.elts[0].lower is None \
+                            and a0.slice.elts[0].upper is None and a0.slice.elts[0].step is None:
+                        k = self.const_int(a0.slice.elts[1])
+                        m = self.mexpr(a0.value, selfname, selffields)
+                        if m is not None and k is not None and 0 <= k < m.c:
+                            return SymMat(m.r, m.r, [[m.e[i][k] if i == j else ZERO for j in range(m.r)] for i in range(m.r)])
+                    self.err(node, 'np.diag of something other than a column M[:, k]')
                 if f.attr == 'matmul' and len(node.args) == 2 and not node.keywords:
                     return self.mexpr(ast.BinOp(left=node.args[0], op=ast.MatMult(), right=node.args[1],
                                                 lineno=node.lineno, col_offset=node.col_offset), selfname, selffields)
@@ -1658,9 +1669,12 @@ class Env:
             ok = True
             for pn, pk in sp['params'].items():
                 pk = self.tr._parse_kind(pk)
-                if pn not in vals:
-                    ok = False
-                    break
+                if pn not in vals or (isinstance(vals[pn], ast.Constant) and vals[pn].value is None):
+                    # argument omitted / None: the first variant (the general shape) stands for it
+                    ok = sp is specs[0]
+                    if not ok:
+                        break
+                    continue
                 e, k = self.expr(vals[pn])
                 if isinstance(k, tuple) and k[0] in ('mat', 'optmat') and isinstance(pk, tuple) \
                         and (k[1], k[2]) == (pk[1], pk[2]):
@@ -2082,7 +2096,8 @@ class Env:
             if isinstance(st.value, ast.Constant) and isinstance(st.value.value, bool):
                 self.static_vals[name] = st.value.value
             m = None if self.is_raising_call(st.value) else self.mexpr(st.value)
-            if m is not None and not (isinstance(self.vars.get(name), tuple) and self.vars.get(name)[0] == 'optmat'):
+            if m is not None and (not (isinstance(self.vars.get(name), tuple) and self.vars.get(name)[0] == 'optmat')
+                                  or ast.dump(ast.Name(id=name, ctx=ast.Load())) in self.narrowed):
                 # matrix-valued local: keep it symbolic, bind compound entries to scalar lets
                 m = self.bind_mat(m, name + '_')
                 pre = self.flush_pending(indent)
